@@ -520,3 +520,59 @@ class ObjGen:
 def programs(seed, n, **kw):
     rnd = random.Random(seed)
     return [ObjGen(rnd, **kw).program() for _ in range(n)]
+
+
+def fixed_programs():
+    """hand-shaped families a random hierarchy rarely produces: (1) one generic class body shared by several specialisations,
+    whose methods call non-virtual siblings without a receiver and touch per-specialisation statics / build Cell<T>;
+    (2) 'this' used as an overload-selecting argument / receiver inside base-class constructors and field initialisers
+    while a subclass object is being built (overloads resolve from the static type: the class whose code is running)"""
+    out = []
+    INT, STR = P("int"), P("str")
+    T = P("T")
+    for order in ((0, 1, 2), (1, 0, 2), (2, 1, 0)):
+        cell = Class("Cell", "", [Field(T, "v")], [Method("get", [], T, [Ret(Var("v"))])], [Ctor([Param(T, "x")], [Expr(FAsg(This(), "v", Var("x")))])], [], tparams=["T"])
+        tally = Class("Tally", "", [Field(INT, "puts", I(0), static=True), Field(T, "last")],
+                      [Method("note", [Param(T, "x")], VOID, [Expr(Asg("puts", Bin("+", Var("puts"), I(1)))), Expr(FAsg(This(), "last", Var("x")))]),
+                       Method("put", [Param(T, "x")], VOID, [Expr(MCall(This(), "note", Var("x"), bare=True))]),
+                       Method("wrap", [Param(T, "x")], C("Cell", [T]), [Ret(New("Cell", Var("x"), targs=[T]))]),
+                       Method("boxed", [Param(T, "x")], T, [Decl(C("Cell", [T]), "c", MCall(This(), "wrap", Var("x"), bare=True)), Ret(MCall(Var("c"), "get"))]),
+                       Method("bump", [], INT, [Expr(Asg("puts", Bin("+", Var("puts"), I(10)))), Ret(Var("puts"))], static=True),
+                       Method("bumpTwice", [], INT, [Expr(SCall("Tally", "bump") if False else MCall(This(), "bump", bare=True)), Ret(MCall(This(), "bump", bare=True))], static=True),
+                       Method("count", [], INT, [Ret(Var("puts"))])],
+                      [Ctor([Param(T, "first")], [Expr(FAsg(This(), "last", Var("first")))])], [], tparams=["T"])
+        decls = [Decl(C("Tally", [INT]), "a", New("Tally", I(0), targs=[INT])), Decl(C("Tally", [STR]), "b", New("Tally", S("s"), targs=[STR])),
+                 Decl(C("Tally", [P("float")]), "c", New("Tally", F(1, 2), targs=[P("float")]))]
+        vals = {"a": [I(1), I(2), I(3)], "b": [S("x"), S("y"), S("z")], "c": [F(3, 2), F(5, 2), F(7, 2)]}
+        names = ["a", "b", "c"]
+        body = list(decls)
+        for rnd_ in range(3):
+            for oi in order:
+                n = names[oi]
+                body += [Expr(MCall(Var(n), "put", vals[n][rnd_])), Echo(MCall(Var(n), "boxed", vals[n][rnd_]))]
+                if rnd_ == oi:
+                    body += [Expr(MCall(Var(n), "put", vals[n][0]))]
+            for n in names:
+                body += [Echo(MCall(Var(n), "count")), Echo(Fld(Var(n), "last"))]
+        body += [Echo(SCall("Tally<int>", "bumpTwice")) if False else Echo(MCall(Var("a"), "count"))]
+        out.append(Program([Func("main", [], VOID, body)], [cell, tally]))
+    for build in (("Shape", "Circle", "Dot"), ("Dot", "Shape", "Circle"), ("Circle", "Dot", "Shape")):
+        log = Class("Log", "", [], [Method("seen", [Param(C("Shape"), "s")], INT, [Echo(S("seen(Shape)")), Ret(I(1))], static=True),
+                                    Method("seen", [Param(C("Circle"), "c")], INT, [Echo(S("seen(Circle)")), Ret(I(2))], static=True)], [], [], static=True)
+        shape = Class("Shape", "", [Field(INT, "tag", SCall("Log", "seen", This())), Field(INT, "kind")],
+                      [Method("classify", [Param(C("Shape"), "s")], INT, [Echo(S("Shape.classify(Shape)")), Ret(I(10))]),
+                       Method("late", [], INT, [Ret(Bin("+", SCall("Log", "seen", This()), MCall(This(), "classify", This())))])],
+                      [Ctor([], [Echo(S("Shape ctor")), Expr(FAsg(This(), "kind", MCall(This(), "classify", This())))])], [])
+        circle = Class("Circle", "Shape", [Field(INT, "ctag", SCall("Log", "seen", This()))],
+                       [Method("classify", [Param(C("Circle"), "c")], INT, [Echo(S("Circle.classify(Circle)")), Ret(I(20))]),
+                        Method("late2", [], INT, [Ret(Bin("+", SCall("Log", "seen", This()), MCall(This(), "classify", This())))])],
+                       [Ctor([], [Super(), Echo(S("Circle ctor")), Expr(FAsg(This(), "kind", Bin("+", Fld(This(), "kind"), MCall(This(), "classify", This()))))])], [])
+        dot = Class("Dot", "Circle", [], [], [Ctor([], [Super(), Echo(S("Dot ctor"))])], [])
+        body = []
+        for nm in build:
+            v = nm[0].lower()
+            body += [Decl(C(nm), v, New(nm)), Echo(Fld(Var(v), "tag")), Echo(Fld(Var(v), "kind")), Echo(MCall(Var(v), "late"))]
+            if nm != "Shape":
+                body += [Echo(Fld(Var(v), "ctag")), Echo(MCall(Var(v), "late2"))]
+        out.append(Program([Func("main", [], VOID, body)], [log, shape, circle, dot]))
+    return out
